@@ -258,6 +258,15 @@ func (cr *classResolver) classOf1(v ssa.Value) classSet {
 		switch x.Op {
 		case token.MUL:
 			if f, ok := fieldOf(x.X); ok {
+				// a channel carried in a request object: the channel(s) stored there
+				if cr.w.messageStructs()[f.Owner] {
+					for _, st := range cr.w.msgFieldStores[f.String()] {
+						cs.union(cr.classOf(st.Val))
+					}
+					if len(cs) > 0 {
+						break
+					}
+				}
 				cs.add(f.String())
 				break
 			}
